@@ -184,3 +184,243 @@ def gen_notes_file(rng):
         shape.append(['property:' + '+'.join(kinds)])
     img, info = elfgen.build(cls=cls, le=le, machine=machine, etype=2, sections=secs)
     return img, dict(cls=cls, le=le, machine=machine, sections=shape)
+
+
+def gen_symtab_file(rng):
+    """-> (image, description): a relocatable object with a .symtab exercising every symbol type, binding,
+    visibility and section-index kind the description tables know, local symbols first as the gABI requires."""
+    cls = rng.choice([32, 64])
+    le = rng.random() < 0.7
+    E = '<' if le else '>'
+    is64 = cls == 64
+    machine = rng.choice([62, 183, 21, 243, 22]) if is64 else rng.choice([3, 40, 8, 20])
+    nsec = 4
+    names = ['', 'main', 'counter', 'a_rather_long_symbol_name_that_needs_truncating_in_narrow_mode', 'x', '_start', 'file.c',
+             'weak_fn', 'tls_var', 'common_blk', 'ifunc_resolver', 'with.dots.and$dollar', 'Z3fooILi3EEvv']
+    tab, offs = elfgen.strtab([n.encode() for n in names])
+    types = [0, 1, 2, 3, 4, 5, 6]       # STT_GNU_IFUNC / STB_GNU_UNIQUE have no entry in the clone's description tables
+    nloc = rng.choice([1, 2, 4, 7])
+    nglob = rng.choice([0, 1, 3, 8, 20])
+    syms = [elfgen.sym_pack(E, is64, 0, 0, 0, 0, 0, 0)]
+    shape = []
+    for i in range(nloc + nglob):
+        local = i < nloc
+        typ = rng.choice(types)
+        bind = 0 if local else rng.choice([1, 1, 2])
+        if typ == 3:
+            bind, name = 0, ''
+            if not local:
+                typ = 2
+        if typ == 4:
+            name, shndx = 'file.c', 0xfff1
+        name = '' if typ == 3 else rng.choice(names[1:])
+        shndx = rng.choice([0, 1, 2, 3, 0xfff1, 0xfff2]) if typ not in (3, 4) else (rng.randrange(1, nsec) if typ == 3 else 0xfff1)
+        if typ == 5:
+            shndx = 0xfff2
+        vis = rng.choice([0, 0, 0, 1, 2, 3])
+        value = rng.choice([0, 8, 0x1000, 0xdeadbeef, 2 ** (cls - 1) + 5])
+        size = rng.choice([0, 4, 99999, 100000, 2 ** 31])
+        syms.append(elfgen.sym_pack(E, is64, offs[name.encode()], value, size, (bind << 4) | typ, vis, shndx))
+        shape.append((typ, bind, vis, shndx))
+    secs = [elfgen.Sec('.text', 1, flags=6, data=b'\x90' * 32, align=16),
+            elfgen.Sec('.data', 1, flags=3, data=b'\0' * 16, align=8),
+            elfgen.Sec('.bss', 8, flags=3, data=b'', size=64, align=8),
+            elfgen.Sec('.symtab', 2, data=b''.join(syms), link='.strtab', info=1 + nloc, entsize=24 if is64 else 16, align=8),
+            elfgen.Sec('.strtab', 3, data=tab)]
+    # STT_GNU_IFUNC / STB_GNU_UNIQUE are GNU extensions: assemblers mark such files with the GNU OS ABI
+    osabi = 3 if any(t == 10 or b == 10 for t, b, v, x in shape) else 0
+    img, info = elfgen.build(cls=cls, le=le, machine=machine, etype=1, osabi=osabi, sections=secs)
+    return img, dict(cls=cls, le=le, machine=machine, nloc=nloc, nglob=nglob, kinds=sorted(set(shape))[:12])
+
+
+RELOC_MACH = {  # machine: (class, little-endian, RELA?, enum name)
+    3: (32, True, False, 'ENUM_RELOC_TYPE_i386'), 62: (64, True, True, 'ENUM_RELOC_TYPE_x64'), 40: (32, True, False, 'ENUM_RELOC_TYPE_ARM'),
+    183: (64, True, True, 'ENUM_RELOC_TYPE_AARCH64'), 8: (32, False, False, 'ENUM_RELOC_TYPE_MIPS'), 21: (64, True, True, 'ENUM_RELOC_TYPE_PPC64'),
+    22: (64, False, True, 'ENUM_RELOC_TYPE_S390X'), 20: (32, False, True, 'ENUM_RELOC_TYPE_PPC')}
+
+
+def gen_reloc_file(rng, type_tables):
+    """-> (image, description): a relocatable object with one or two relocation sections whose entries use
+    types from `type_tables[machine]` (a list of numbers), named and section symbols, no-symbol entries,
+    negative and large addends."""
+    machine = rng.choice(sorted(RELOC_MACH))
+    cls, le, rela, _ = RELOC_MACH[machine]
+    E = '<' if le else '>'
+    is64 = cls == 64
+    names = ['', 'callee', 'table', 'a_rather_long_symbol_name_that_needs_truncating', 'v']
+    tab, offs = elfgen.strtab([n.encode() for n in names])
+    syms = [elfgen.sym_pack(E, is64, 0, 0, 0, 0, 0, 0),
+            elfgen.sym_pack(E, is64, 0, 0, 0, 3, 0, 1),                       # section symbol of .text
+            elfgen.sym_pack(E, is64, 0, 0, 0, 3, 0, 2)]                       # section symbol of .data
+    for n in names[1:]:
+        syms.append(elfgen.sym_pack(E, is64, offs[n.encode()], rng.choice([0, 0x10, 0x1234]), 4, 0x12 if n != 'table' else 0x11,
+                                    0, rng.choice([0, 1, 2])))
+    nsym = len(syms)
+    types = type_tables[machine]
+
+    def recs(n):
+        out = b''
+        shape = []
+        for i in range(n):
+            t = rng.choice(types)
+            s = rng.choice([0] + list(range(1, nsym)))
+            off = rng.choice([0, 4, 8, 0x1c, 0x100])
+            add = rng.choice([0, 4, -4, -128, 0x7fffffff, -2 ** 31])
+            if is64:
+                out += struct.pack(E + 'QQ', off, (s << 32) | t) + (struct.pack(E + 'q', add) if rela else b'')
+            else:
+                out += struct.pack(E + 'II', off, (s << 8) | (t & 0xff)) + (struct.pack(E + 'i', add) if rela else b'')
+            shape.append((t, s, add if rela else None))
+        return out, shape
+    n1 = rng.choice([1, 2, 5, 12])
+    r1, s1 = recs(n1)
+    relsz = ((24 if rela else 16) if is64 else (12 if rela else 8))
+    pre = '.rela' if rela else '.rel'
+    secs = [elfgen.Sec('.text', 1, flags=6, data=b'\x90' * 0x120, align=16),
+            elfgen.Sec('.data', 1, flags=3, data=b'\0' * 0x120, align=8),
+            elfgen.Sec(pre + '.text', 4 if rela else 9, flags=0x40, data=r1, link='.symtab', info='.text', entsize=relsz, align=8)]
+    shape = [s1]
+    if rng.random() < 0.5:
+        r2, s2 = recs(rng.choice([1, 3]))
+        secs.append(elfgen.Sec(pre + '.data', 4 if rela else 9, flags=0x40, data=r2, link='.symtab', info='.data', entsize=relsz, align=8))
+        shape.append(s2)
+    secs += [elfgen.Sec('.symtab', 2, data=b''.join(syms), link='.strtab', info=3, entsize=24 if is64 else 16, align=8),
+             elfgen.Sec('.strtab', 3, data=tab)]
+    img, info = elfgen.build(cls=cls, le=le, machine=machine, etype=1, sections=secs)
+    return img, dict(machine=machine, cls=cls, rela=rela, relocs=[x[:6] for x in shape])
+
+
+def gen_layout_file(rng):
+    """-> (image, description): an executable laid out like a linker does it - text/rodata/data segments, TLS
+    with .tdata/.tbss, .bss at the end of the data segment, PT_NOTE, PT_GNU_STACK, PT_GNU_RELRO, PT_INTERP,
+    PT_PHDR - with random section sets, sizes, flags and alignments. Address == offset + base."""
+    cls = rng.choice([32, 64])
+    le = rng.random() < 0.7
+    is64 = cls == 64
+    machine = rng.choice([62, 183, 21, 243]) if is64 else rng.choice([3, 40, 8])
+    base = rng.choice([0, 0x400000, 0x10000]) if cls == 64 else rng.choice([0, 0x8048000, 0x10000])
+    etype = 3 if base == 0 else 2
+
+    def blob(n):
+        return bytes(rng.getrandbits(8) for _ in range(n))
+    plan = []          # (name, type, flags, size, align, group)
+    if rng.random() < 0.7:
+        plan.append(('.interp', 1, 2, 0, 1, 'ro', b'/lib/ld.so.1\0'))
+    if rng.random() < 0.7:
+        plan.append(('.note.gnu.build-id', 7, 2, 0, 4, 'ro',
+                     struct.pack(('<' if le else '>') + 'III', 4, 8, 3) + b'GNU\0' + blob(8)))
+    plan.append(('.rodata', 1, rng.choice([2, 0x12, 0x32]), 0, rng.choice([1, 8, 32]), 'ro', blob(rng.choice([1, 16, 100]))))
+    plan.append(('.text', 1, 6, 0, 16, 'rx', blob(rng.choice([16, 64, 300]))))
+    if rng.random() < 0.5:
+        plan.append(('.fini', 1, 6, 0, 4, 'rx', blob(8)))
+    tls = rng.random() < 0.5
+    if tls:
+        plan.append(('.tdata', 1, 0x403, 0, 8, 'rw', blob(rng.choice([4, 8, 24]))))
+        plan.append(('.tbss', 8, 0x403, rng.choice([4, 16, 64]), 8, 'rw', b''))
+    if rng.random() < 0.6:
+        plan.append(('.init_array', 14, 3, 0, 8, 'rw', blob(8 if not is64 else 16)))
+    plan.append(('.data', 1, 3, 0, rng.choice([4, 8, 32]), 'rw', blob(rng.choice([4, 40, 200]))))
+    if rng.random() < 0.8:
+        plan.append(('.bss', 8, 3, rng.choice([1, 8, 4096]), rng.choice([1, 8, 32]), 'rw', b''))
+    if rng.random() < 0.5:
+        plan.append(('.comment', 1, 0x30, 0, 1, None, b'GCC: (GNU) 12.2.0\0'))
+    nseg_max = 12
+    ehsize = 64 if is64 else 52
+    phsize = (56 if is64 else 32) * nseg_max
+    # first pass: addresses (offset + base), contiguous with alignment; groups start on a page boundary
+    pos = ehsize + phsize
+    secs = []
+    spans = {}
+    last_group = None
+    mem_extra = 0
+    for name, typ, flags, size, align, group, data in plan:
+        if group != last_group and group is not None:
+            pos += (-pos) % 0x1000
+        pos += (-pos) % max(1, align)
+        if name == '.tbss':
+            addr = base + pos
+            secs.append(elfgen.Sec(name, typ, flags=flags, data=b'', size=size, align=align, addr=addr, offset=pos))
+            spans.setdefault('tls', [pos, pos, 0])
+            spans['tls'][2] = size
+            last_group = group
+            continue
+        if typ == 8:
+            addr = base + pos + mem_extra
+            secs.append(elfgen.Sec(name, typ, flags=flags, data=b'', size=size, align=align, addr=addr, offset=pos))
+            mem_extra += size
+            sp = spans.setdefault(group, [pos, pos, 0])
+            sp[2] = mem_extra
+            last_group = group
+            continue
+        addr = base + pos if group is not None else 0
+        secs.append(elfgen.Sec(name, typ, flags=flags, data=data, align=align, addr=addr, offset=pos,
+                               entsize=(8 if is64 else 4) if typ == 14 else (1 if flags & 0x10 else 0)))
+        if group is not None:
+            sp = spans.setdefault(group, [pos, pos, 0])
+            sp[1] = pos + len(data)
+            if name == '.tdata':
+                t = spans.setdefault('tls', [pos, pos, 0])
+                t[0], t[1] = pos, pos + len(data)
+            if name.startswith('.note'):
+                spans['note'] = [pos, pos + len(data), 0]
+            if name == '.interp':
+                spans['interp'] = [pos, pos + len(data), 0]
+            if name == '.init_array':
+                spans['relro'] = [pos, pos + len(data), 0]
+        pos += len(data)
+        last_group = group
+    segs = []
+    if rng.random() < 0.6:
+        segs.append(elfgen.Seg(type=6, flags=4, offset=ehsize, vaddr=base + ehsize, filesz=phsize, memsz=phsize, align=8))
+    if 'interp' in spans:
+        a, b, _ = spans['interp']
+        segs.append(elfgen.Seg(type=3, flags=4, offset=a, vaddr=base + a, filesz=b - a, align=1))
+    first = True
+    for group, fl in (('ro', 4), ('rx', 5), ('rw', 6)):
+        if group in spans:
+            a, b, extra = spans[group]
+            if first:
+                a = 0          # the first load segment maps the headers too
+                first = False
+            segs.append(elfgen.Seg(type=1, flags=fl, offset=a, vaddr=base + a, filesz=b - a, memsz=b - a + extra, align=0x1000))
+    if 'note' in spans:
+        a, b, _ = spans['note']
+        segs.append(elfgen.Seg(type=4, flags=4, offset=a, vaddr=base + a, filesz=b - a, align=4))
+    if tls:
+        a, b, extra = spans['tls']
+        segs.append(elfgen.Seg(type=7, flags=4, offset=a, vaddr=base + a, filesz=b - a, memsz=b - a + extra, align=8))
+    if rng.random() < 0.7:
+        segs.append(elfgen.Seg(type=0x6474e551, flags=rng.choice([6, 7]), offset=0, vaddr=0, filesz=0, memsz=0, align=16))
+    if 'relro' in spans and rng.random() < 0.7:
+        a, b, _ = spans['relro']
+        segs.append(elfgen.Seg(type=0x6474e552, flags=4, offset=a, vaddr=base + a, filesz=b - a, align=1))
+    while len(segs) < nseg_max:
+        segs.append(elfgen.Seg(type=0, flags=0, offset=0, vaddr=0, filesz=0, memsz=0, align=0))
+    entry = next(s.addr for s in secs if s.name == '.text')
+    img, info = elfgen.build(cls=cls, le=le, machine=machine, etype=etype, entry=entry, sections=secs, segments=segs)
+    return img, dict(cls=cls, le=le, machine=machine, base=base, sections=[s.name for s in secs], tls=tls,
+                     segments=[g.type for g in segs if g.type])
+
+
+def gen_dump_file(rng):
+    """-> (image, description, options): sections to dump with -x / -p: binary data of odd lengths, strings with
+    non-printable characters, an empty section, a NOBITS section."""
+    cls = rng.choice([32, 64])
+    le = rng.random() < 0.7
+    machine = 62 if cls == 64 else 3
+
+    def blob(n):
+        return bytes(rng.getrandbits(8) for _ in range(n))
+    text = blob(rng.choice([1, 15, 16, 17, 33, 100]))
+    # bytes >= 0x80 in a string dump depend on the locale, and GNU prints DEL as '^' + 0xbf: both kept out
+    text = bytes((b & 0x7f) if (b & 0x7f) != 0x7f else 0x41 for b in text)
+    strs = b''.join(rng.choice([b'hello', b'', b'a', b'GCC: (Debian) 12', b'tab\there', b'\x01ctrl', b'line\n', b'two\nlines', b'fmt %d\n\n', b'x' * 70]) + b'\0'
+                    for _ in range(rng.choice([1, 3, 6])))
+    if rng.random() < 0.3:
+        strs = b'\0\0' + strs
+    secs = [elfgen.Sec('.text', 1, flags=6, data=text, addr=rng.choice([0, 0x1000, 0x401007]), align=1),
+            elfgen.Sec('.comment', 1, flags=0x30, data=strs, entsize=1),
+            elfgen.Sec('.empty', 1, flags=2, data=b''),
+            elfgen.Sec('.bss', 8, flags=3, data=b'', size=16)]
+    img, info = elfgen.build(cls=cls, le=le, machine=machine, etype=1, sections=secs)
+    return img, dict(cls=cls, text=len(text), strings=len(strs))
